@@ -65,7 +65,7 @@ theorem C15_mixture_start (c : Char) (cs : Str) (h : c ≠ '.') : parseMixture (
 
 /-- a transition list whose length differs from the number of descriptors of its stochastic object is rejected -/
 theorem C15_transition_length (valid : Str → Bool) (text : Str) (r : Nat) (o : PStoch) (h : parseStoch valid text r = .ok o) :
-    ∀ p ∈ o.allDescs, ∀ l, p.d.trans = some l → l.length = o.allDescs.length := by
+    ∀ p ∈ o.allDescs ++ [o.left, o.right], ∀ l, p.d.trans = some l → l.length = o.allDescs.length := by
   unfold parseStoch at h
   split at h
   · cases h
